@@ -166,6 +166,37 @@ theorem convert_frame (q : String) (m : Mapping) (kvs : Obj) (r : Json) (hw : wr
     (h : convert m (.obj kvs) = .ok r) : ∃ kvs', r = .obj kvs' ∧ get q kvs' = get q kvs :=
   Typedpy.Convert.convert_frame m kvs r hw h
 
+/-- **deleted clause of the step contract**: after `_convert`, a key the mapping marks `Deleted` is absent -/
+theorem convert_deleted_absent (k : String) (m : Mapping) (kvs : Obj) (r : Json)
+    (hm : (k, Entry.deleted) ∈ m) (h : convert m (.obj kvs) = .ok r) :
+    ∃ kvs', r = .obj kvs' ∧ get k kvs' = none := by
+  simp only [convert, convShape] at h
+  rcases bindE_eq_ok h with ⟨o1, _, h2⟩
+  cases h2
+  have hc : (k, CEntry.deleted) ∈ compileMap m := by
+    have := mem_compileMap m hm
+    simpa [Entry.compile] using this
+  exact ⟨_, rfl, loop3_deleted _ _ (Or.inl hc)⟩
+
+/-- **constant clause of the step contract**: after `_convert`, a key whose only entry in the mapping is
+    `Constant(v)` holds `v` -/
+theorem convert_constant_set (k : String) (v : Json) (m : Mapping) (kvs : Obj) (r : Json)
+    (hm : (k, Entry.const v) ∈ m) (hu : ∀ e, (k, e) ∈ m → e = Entry.const v)
+    (h : convert m (.obj kvs) = .ok r) : ∃ kvs', r = .obj kvs' ∧ get k kvs' = some v := by
+  simp only [convert, convShape] at h
+  rcases bindE_eq_ok h with ⟨o1, h1, h2⟩
+  cases h2
+  have hc : (k, CEntry.const v) ∈ compileMap m := by
+    have := mem_compileMap m hm
+    simpa [Entry.compile] using this
+  have huc : ∀ ce, (k, ce) ∈ compileMap m → ce = CEntry.const v := by
+    intro ce hce
+    rcases mem_compileMap_inv m hce with ⟨e, he, rfl⟩
+    rw [hu e he]; simp [Entry.compile]
+  refine ⟨_, rfl, ?_⟩
+  rw [loop3_const _ _ huc, loop2_const _ _ huc]
+  exact loop1_const _ kvs kvs o1 huc h1 (Or.inl hc)
+
 /-! ### `Versioned` deserialization and construction -/
 
 /-- **versioned_deser_equiv**: deserializing a `Versioned` class from a document at any version `v ≥ 1` is
